@@ -196,6 +196,11 @@ func C10(r *vf.Run) {
 			r.Fail("reader-modifies", desc()+": reading changed the image", nil)
 		}
 		cells["read:"+oc+":chunk"+fmt.Sprint(min(chunk, 9999))]++
+		if g.Intn(3) == 0 {
+			if msg := readerCapabilities(g, rom.BusReader(addr), want, cells); msg != "" {
+				r.Fail("reader-exposes-outside-window", desc()+": a handle from BusReader, used through the other methods of its type: "+msg, nil)
+			}
+		}
 
 		// ---- writer: a history of write lengths
 		var lens []int
